@@ -169,6 +169,28 @@ pub struct ModelRun<'a> {
     pub ambiguous: Option<&'static str>,
     /// how the session ends: true = `exit` / false = `quit` or end of input
     pub ends_with_exit: bool,
+    /// when the last kept command is a `step` over a call on which the two readings disagree:
+    /// the model under the other reading (`dbg`/`states` follow "first arrival"); either is accepted
+    pub alt: Option<(Dbg<'a>, RegDump, Effect)>,
+}
+
+impl<'a> ModelRun<'a> {
+    /// Switch to the alternative reading of the last command. Returns false if there is none.
+    pub fn use_alternative(&mut self) -> bool {
+        match self.alt.take() {
+            Some((dbg, state, eff)) => {
+                self.dbg = dbg;
+                if let Some(last) = self.states.last_mut() {
+                    *last = state;
+                }
+                if let Some(last) = self.effects.last_mut() {
+                    *last = eff;
+                }
+                true
+            }
+            None => false,
+        }
+    }
 }
 
 /// Run the model over `cmds`. The history is cut before the first command whose outcome the
@@ -182,12 +204,47 @@ pub fn run_model<'a>(p: &Prog, cmds: &[Cmd], input: &'a [u8], budget: u64) -> Mo
     let mut bps_after = Vec::new();
     let mut kept = 0;
     let mut ambiguous = None;
+    let mut alt = None;
     let mut ends_with_exit = false;
     for cmd in cmds {
         // evaluate on a copy so that an ambiguous command leaves the model untouched
         let save = (dbg.vm.clone(), dbg.bps.clone(), dbg.io.pos, dbg.io.out.len(), dbg.executed);
         let before = (dbg.vm.pc, dbg.vm.mem[dbg.vm.pc as usize]);
         let eff = dbg.apply(cmd);
+        if let Effect::Ambiguous("step over: readings disagree") = &eff {
+            // Keep the command as the last one of the history, with both readings' outcomes.
+            let restore = |d: &mut Dbg<'a>| {
+                d.vm = save.0.clone();
+                d.bps = save.1.clone();
+                d.io.pos = save.2;
+                d.io.out.truncate(save.3);
+                d.executed = save.4;
+            };
+            restore(&mut dbg);
+            let mut a = dbg.clone();
+            a.step_reading = crate::refdbg::StepReading::FirstArrival;
+            let ea = a.apply(cmd);
+            let mut b = dbg.clone();
+            b.step_reading = crate::refdbg::StepReading::CallReturned;
+            let eb = b.apply(cmd);
+            if matches!(ea, Effect::Ran { .. }) && matches!(eb, Effect::Ran { .. }) {
+                ambiguous = Some("step over: readings disagree");
+                kept += 1;
+                pre.push(before);
+                bps_after.push(a.bps.iter().copied().collect());
+                states.push(RegDump { r: a.vm.r, pc: a.vm.pc, cc: a.vm.cc });
+                effects.push(ea);
+                let sb = RegDump { r: b.vm.r, pc: b.vm.pc, cc: b.vm.cc };
+                a.step_reading = crate::refdbg::StepReading::Strict;
+                b.step_reading = crate::refdbg::StepReading::Strict;
+                alt = Some((b, sb, eb));
+                dbg = a;
+                break;
+            }
+            // one of the readings runs into unspecified territory: cut before the command
+            ambiguous = Some("step over: readings disagree");
+            break;
+        }
         match &eff {
             Effect::Ambiguous(why) => {
                 ambiguous = Some(*why);
@@ -213,7 +270,7 @@ pub fn run_model<'a>(p: &Prog, cmds: &[Cmd], input: &'a [u8], budget: u64) -> Mo
         states.push(RegDump { r: dbg.vm.r, pc: dbg.vm.pc, cc: dbg.vm.cc });
         effects.push(eff);
     }
-    ModelRun { dbg, states, effects, pre, bps_after, kept, ambiguous, ends_with_exit }
+    ModelRun { dbg, states, effects, pre, bps_after, kept, ambiguous, ends_with_exit, alt }
 }
 
 /// Script text for the first `kept` commands, each followed by `registers` when `observe` is set.
